@@ -2,7 +2,7 @@
    Statements only.  Model: format/Kdbx4.v (container framing, parametric in the primitives),
    xml/Scalars.v (scalar codecs). *)
 From Coq Require Import Permutation.
-From KP Require Import Bytes Outcome LE Version Kdbx4 Kdbx4Facts Kdbx4Proofs Scalars ScalarsProofs.
+From KP Require Import Bytes Outcome LE Version Kdbx4 Kdbx4Facts Kdbx4Proofs Kdbx4Conform Scalars ScalarsProofs.
 Local Open Scope N_scope.
 
 (* a saved file starts with the outer header in the published layout: signature and version, cipher
@@ -68,3 +68,26 @@ Theorem c07_parse_inner_header_dump : forall c key atts xml,
   N.of_nat (length key) < 2 ^ 32 -> atts_ok atts = true ->
   parse_inner_header (inner_header_dump c key atts ++ xml) = Ok (atts, c, key, xml).
 Proof. exact parse_inner_header_dump. Qed.
+
+(* the crate's writer IS a conforming writer in the sense of format/Kdbx4Conform.v: dump4 computes the
+   file of the layout crate_layout4, and that layout is conforming *)
+Theorem c07_writer_is_conforming :
+  forall (sha256 sha512 : bytes -> bytes) (hmac256 : bytes -> bytes -> bytes)
+         (kdf : kdfcfg -> bytes -> bytes -> Kdbx4.res bytes)
+         (outer_enc : ocipher -> bytes -> bytes -> bytes -> Kdbx4.res bytes)
+         (compress : compression -> bytes -> Kdbx4.res bytes)
+         (cfg : config) (d : draws) (vd : vdict) (els : Kdbx4.res (list bytes)) (atts : list attachment)
+         (xml : bytes) (minor : N),
+  c_version cfg = KDB4 minor ->
+  dump4 sha256 sha512 hmac256 kdf outer_enc compress cfg d vd els atts xml
+  = Kdbx4Conform.write_conforming4 sha256 sha512 hmac256 kdf outer_enc compress minor
+      (Kdbx4Conform.header_of_draws cfg d) (Kdbx4Conform.crate_layout4 cfg d vd atts) els xml.
+Proof. exact dump4_is_conforming. Qed.
+
+Theorem c07_writer_layout_is_conforming :
+  forall (cfg : config) (d : draws) (vd : list (bytes * vdval)) (atts : list attachment),
+  draws_ok cfg d = true -> kdf_params_ok (c_kdf cfg) = true ->
+  Permutation vd (vd_of_kdf (c_kdf cfg) (d_kdf_seed d)) -> atts_ok atts = true ->
+  Kdbx4Conform.conforming_layout4 (Kdbx4Conform.header_of_draws cfg d) vd (c_inner cfg) (d_inner_key d) atts
+    (Kdbx4Conform.crate_layout4 cfg d vd atts).
+Proof. exact crate_layout4_conforming. Qed.
